@@ -380,7 +380,10 @@ def run_c01(ctx: Ctx):
                               f"(remaining {reader.remaining}, byte_size {back.byte_size}, {len(data)} bytes written)",
                               {"class": cname, "object": ro, "bytes": common.tohex(data), "back": rb})
                         return
-                    ms, md = ctx.driver.ask([f"gen ser {cname} 0 {ro}", f"gen de {cname} 0 {common.tohex(data)}"])
+                    ms, md, dom = ctx.driver.ask([f"gen ser {cname} 0 {ro}", f"gen de {cname} 0 {common.tohex(data)}",
+                                                  f"gen rtdomain {cname} {rb.rsplit(' ', 1)[0]} 0"])
+                    # how much of what is explored lies inside the domain of the proved theorem `spec_roundtrip`
+                    ctx.count("theorem_domain." + dom.replace("ok ", "").replace(" ", "_"))
                     if ms != f"ok {common.tohex(data)} san 0" or md != f"ok {rb} pos {len(data)} chunked 0":
                         if disagree(ctx, case, f"{cname} round trip: model serialize `{ms[:120]}` / deserialize `{md[:160]}`, impl bytes "
                                  f"{common.tohex(data)} / object {rb[:160]}", {"class": cname, "object": ro, "bytes": common.tohex(data)},
